@@ -75,3 +75,23 @@ def cyclic_flow_decomp_guessed_weights_finds_fewer_walks(violation, spec):
         return float(d.get("objective")) < float(d.get("reference"))
     except Exception:
         return False
+
+
+@predicate
+def isolated_node_one_node_routes_dropped(violation, spec):
+    """An error model (k-min-path-error / k-least-absolute-errors, DAG or cyclic) on an edge-weighted graph that has an
+    isolated node, returning fewer than k routes."""
+    w = spec.get("world", {})
+    if w.get("class") not in ("kMinPathError", "kLeastAbsErrors", "kMinPathErrorCycles", "kLeastAbsErrorsCycles"):
+        return False
+    if w.get("args", {}).get("flow_attr_origin") == "node":
+        return False
+    g = w.get("graph") or {}
+    touched = {x for e in g.get("edges", []) for x in e[:2]}
+    if not any(x not in touched for x in g.get("nodes", [])):
+        return False
+    d = violation.get("detail") or {}
+    try:
+        return int(d.get("n")) < int(d.get("k"))
+    except Exception:
+        return False
